@@ -250,7 +250,7 @@ def modelOp (op : String) (pat : String) (args : List String) : Option String :=
   | "bj.coordsign", [c] => pure (showBool (Model.BabyJub.pointCoordSign k (← parseInt? c)))
   | "bj.mulrecv", [s, x, y] =>
     let q := ((← parseInt? x), (← parseInt? y))
-    let recv0 : Int × Int := if pat = "self" then q else (0, 1)
+    let recv0 : Int × Int := if pat = "self" then q else if pat = "dirty" then (12345, 67890) else (0, 1)
     let r := Model.Receiver.pointMul k recv0 (← parseInt? s) q
     pure s!"{showPt r.2} recv={showPt r.1}"
   | "bj.set", [x, y] =>
